@@ -612,7 +612,7 @@ def shards(tier: str, seed: int):
             specs.append((MOD, "shard_run", dict(sub=sub, kinds=ks, seed=seed, n_examples=n, shard=k)))
             k += 1
     specs.append((MOD, "shard_run", dict(sub="ind-proposal", kinds=("logistic", "linear"), seed=seed, n_examples=n, shard=k)))
-    specs.append((MOD, "shard_run", dict(sub="toy-weighted", kinds=("toy",), seed=seed, n_examples=6 * n, shard=k + 1)))
+    specs.append((MOD, "shard_run", dict(sub="toy-weighted", kinds=("toy",), seed=seed, n_examples=4 * n, shard=k + 1)))
     return specs
 
 
